@@ -208,6 +208,7 @@ def run_family(ctx, prop, scenarios, impls, sections, select=None, meta_rule="",
     rng = random.Random(ctx.seed * 7919 + 13)
     total_edges = 0
     total_paths = 0
+    cut_examples = []
     for n in scenarios:
         sc = export(ctx, n)
         qrun = sc  # queries come with the scenario export (QUERIES line)
@@ -236,6 +237,8 @@ def run_family(ctx, prop, scenarios, impls, sections, select=None, meta_rule="",
             for k, cnt in (v.get("stats") or {}).items():
                 ctx.extra_cov[k] = ctx.extra_cov.get(k, 0) + cnt
             if v.get("ok"):
+                if (v.get("stats") or {}).get("cases_cut_short_by_other_mismatch") and len(cut_examples) < 3:
+                    cut_examples.append(v.get("msg", ""))
                 continue
             ms = ((v.get("obs") or {}).get("mismatches")) if isinstance(v.get("obs"), dict) else None
             rep = {"scenario": n, "impl": c["impl"], "ops": [s["ev"] for s in c["steps"]]}
@@ -246,6 +249,10 @@ def run_family(ctx, prop, scenarios, impls, sections, select=None, meta_rule="",
             else:
                 ctx.fail(v.get("key") or "unknown", "scenario %d %s: %s" % (n, c["impl"], v.get("msg", "")), dict(rep, verdict=v))
         ctx.traces_validated += len(cases)
+    cut = ctx.extra_cov.get("cases_cut_short_by_other_mismatch", 0)
+    if cut:
+        ctx.note("%d case(s) ended early because of a mismatch in a section that does not count for %s (the rest of their steps "
+                 "was not checked), e.g. %s" % (cut, prop, "; ".join(cut_examples)[:400]))
     ctx.extra_cov["spec_transitions_exported"] = total_edges
     ctx.extra_cov["paths_per_impl"] = total_paths
     if not finish:
